@@ -303,7 +303,10 @@ def r13_try(src, item, ed, opts):
     """`E?` -> `match E { Ok(v) => v, Err(e) => return Err(<conv>(e)) }` at sites named in the
     sidecar: try_sites = [{n=0, conv="Error::from", hint="proof{..}"}] (ordinal among `?` of the fn)."""
     tries = nodes_of(item, "try")
-    for sp in opts.get("try_sites", []):
+    sites = list(opts.get("try_sites", []))
+    if opts.get("try_all"):
+        sites = [dict(opts["try_all"], n=k) for k in range(len(tries))]
+    for sp in sites:
         k = sp["n"]
         if k >= len(tries):
             raise LostAnchor(f"`?` #{k} of {item['path']}")
@@ -528,6 +531,26 @@ def r8_iter_any(src, item, ed, opts):
         ed.count("R8")
 
 
+def r7_writer(src, item, ed, opts):
+    """`&mut dyn std::io::Write` / `&mut impl Write` parameters -> `&mut VxWriter` (ghost-modelled
+    writer carrying the contract of io::Write::write_all); `std::io::Result<T>` -> `VxIoResult<T>`"""
+    for p in item.get("inputs", []):
+        if p.get("self"):
+            continue
+        t = src.text(*p["ty"])
+        tn = t.replace(" ", "")
+        if tn in ("&mutdynstd::io::Write", "&mutimplstd::io::Write", "&mutimplWrite", "&mutdynWrite", "&mutimplio::Write", "&mutdynio::Write"):
+            ed.replace(p["ty"][0], p["ty"][1], "&mut VxWriter", "R7")
+            ed.count("R7")
+    if "ret" in item:
+        t = src.text(*item["ret"])
+        for pre in ("std::io::Result", "io::Result"):
+            if t.replace(" ", "").startswith(pre + "<"):
+                ed.replace(item["ret"][0], item["ret"][0] + t.index("Result") + len("Result"), "VxIoResult", "R7")
+                ed.count("R7")
+                break
+
+
 def r25_closure_wildcard(src, item, ed, opts):
     """closure parameter `_` -> a fresh variable name (Verus accepts only variables there)"""
     for j, p in enumerate(item.get("inputs", [])):
@@ -543,6 +566,7 @@ def r25_closure_wildcard(src, item, ed, opts):
 
 RULES = {
     "R6": r6_mem_replace,
+    "R7": r7_writer,
     "R8": r8_iter_any,
     "R25": r25_closure_wildcard,
     "R1": r1_format,
